@@ -602,12 +602,13 @@ package xpath
 //@   captures root != nil
 
 //@ func (*ancestorQuery).Select
-//@   props C15 C13
-//@   theory stream for C13
+//@   props C15 C13 C01
+//@   theory stream for C13 C01
 //@   uses one-document
 //@   loop 0 invariant a.table != nil
 //@   loop 1 invariant a.table != nil && a.iterator != nil
 //@   loop * invariant[cursor@C13] cur(t) == old(cur(t)) && pos(cur(t)) == old(pos(cur(t)))
+//@   ensures[drains-input@C01] result == nil ==> k(a.Input) == slen(ref(a.Input), epoch(a.Input))
 //@ func (*ancestorQuery).Select$1
 //@   props C15 C01
 //@   mode int
@@ -1070,13 +1071,14 @@ package xpath
 //@   ensures[cursor-restored@C13] pos(cur(t)) == old(pos(cur(t)))
 //@   loop * invariant[cursor@C13] cur(t) == old(cur(t)) && pos(cur(t)) == old(pos(cur(t)))
 //@ func (*descendantQuery).Select
-//@   props C15 C13
-//@   theory stream for C13
+//@   props C15 C13 C01
+//@   theory stream for C13 C01
 //@   uses one-document
 //@   requires[@C15] t != nil
 //@   tree-frame
 //@   preserves heap(F:NodeIterator.*)
 //@   loop * invariant[cursor@C13] cur(t) == old(cur(t)) && pos(cur(t)) == old(pos(cur(t)))
+//@   ensures[drains-input@C01] result == nil ==> k(d.Input) == slen(ref(d.Input), epoch(d.Input))
 
 //@ field result predicate(n) result
 //@   requires n != nil
@@ -2056,15 +2058,17 @@ package xpath
 //@   uses one-document
 //@   loop * invariant[cursor@C13] cur(t) == old(cur(t)) && pos(cur(t)) == old(pos(cur(t)))
 //@ func (*followingQuery).Select
-//@   props C15 C13
-//@   theory stream for C13
+//@   props C15 C13 C01
+//@   theory stream for C13 C01
 //@   uses one-document
 //@   loop * invariant[cursor@C13] cur(t) == old(cur(t)) && pos(cur(t)) == old(pos(cur(t)))
+//@   ensures[drains-input@C01] result == nil ==> k(f.Input) == slen(ref(f.Input), epoch(f.Input))
 //@ func (*precedingQuery).Select
-//@   props C15 C13
-//@   theory stream for C13
+//@   props C15 C13 C01
+//@   theory stream for C13 C01
 //@   uses one-document
 //@   loop * invariant[cursor@C13] cur(t) == old(cur(t)) && pos(cur(t)) == old(pos(cur(t)))
+//@   ensures[drains-input@C01] result == nil ==> k(p.Input) == slen(ref(p.Input), epoch(p.Input))
 //@ define inAt(q, j) = spos(ref(q), epoch(q), j)
 //@ func (*parentQuery).Select
 //@   props C15 C13 C01
@@ -2152,12 +2156,13 @@ package xpath
 //@   theory stream for C13
 //@   uses one-document
 //@ func (*descendantOverDescendantQuery).Select
-//@   props C15 C13
-//@   theory stream for C13
+//@   props C15 C13 C01
+//@   theory stream for C13 C01
 //@   uses one-document
 //@   loop * invariant[cursor@C13] cur(t) == old(cur(t)) && pos(cur(t)) == old(pos(cur(t)))
 //@   assume[own-navigators] d.currentNode == nil || ref(d.currentNode) != ref(cur(t))   // navigators kept in query fields are copies the query made, never the caller's cursor
 //@   loop * invariant[own@C13] d.currentNode == nil || ref(d.currentNode) != ref(cur(t))
+//@   ensures[drains-input@C01] result == nil ==> k(d.Input) == slen(ref(d.Input), epoch(d.Input))
 //@ func (*mergeQuery).Select
 //@   props C15 C13
 //@   theory stream for C13
